@@ -19,11 +19,11 @@ def parseOp (prim : String) (s : String) : Option SOp :=
   let op : Option SOp :=
     match name, arg with
     | "lock", none => some .lock
-    -- Mutex::Guard / Monitor::Guard (Mutex.hpp, Monitor.hpp): constructor = lock(), destructor = unlock(), Guard::wait forwards
-    | "glock", none => some .lock
-    | "gunlock", none => some .unlock
-    | "gwait", none => if prim == "mon" then some .wait else none
-    | "gtwait", some a => if prim == "mon" then a.toNat?.map .twait else none
+    -- Mutex::Guard / Monitor::Guard (Mutex.hpp, Monitor.hpp): what constructor / destructor / Guard::wait forward to is read from the current headers
+    | "glock", none => guardOp (if prim == "mon" then Nstd.Generated.SyncApi.monitorGuardCtor else Nstd.Generated.SyncApi.mutexGuardCtor) none
+    | "gunlock", none => guardOp (if prim == "mon" then Nstd.Generated.SyncApi.monitorGuardDtor else Nstd.Generated.SyncApi.mutexGuardDtor) none
+    | "gwait", none => if prim == "mon" then guardOp Nstd.Generated.SyncApi.monitorGuardWait none else none
+    | "gtwait", some a => if prim == "mon" then a.toNat?.bind fun ms => guardOp Nstd.Generated.SyncApi.monitorGuardWaitTimeout (some ms) else none
     | "tid", none => some .tid
     | "yield", none => some .yield
     | "sleep", some a => a.toNat?.map .sleep
